@@ -35,7 +35,7 @@ func init() {
 			"Each file is decoded with a drawn flag set {0, DecISMFlag, DecStartOnMoof, both} through DecodeFile and DecodeFileSR (with both flags a top-level sidx or an mfra in force keeps precedence over start-on-moof, as the flag's doc comment says). " +
 			"Oracle 1 (grouping): weak form always; strong form (segment boundaries exactly at the ground-truth delimiters) only when a single mechanism is present. " +
 			"Oracle 2: default segment-mode Encode and EncodeSW keep ftyp, moov and every emsg/moof/mdat byte-identical and in order. " +
-			"Oracle 3: UpdateSidx(addIfNotExists, nonZeroEPT drawn) then Encode, and for 1 file in 4 the add-sidx binary: the first top-level sidx read from the output bytes tiles the media. " +
+			"Oracle 3: UpdateSidx(addIfNotExists, nonZeroEPT drawn) then Encode (segment mode, and box-tree mode when the top level holds only boxes that segment mode writes too), and for 1 file in 4 the add-sidx binary: the first top-level sidx read from the output bytes tiles the media. " +
 			"Non-trivial = decoded by at least one reader and holding >= 2 fragments; distinct_nontrivial counts distinct (file, flags).",
 		Assumptions: []string{
 			"mixed delimiter layouts (styp on some segments, styp + flag, sidx + styp, segment-level sidx without styp, mfra entries + emsg ...) get only the weak grouping form: the statement lists the mechanisms as alternatives",
@@ -778,6 +778,55 @@ func (e *env) oracle3(f *mp4.File, part partition, add, nz bool) {
 		return
 	}
 	e.checkIndex("UpdateSidx", out, f, part, had, add, nz)
+	// the same file written in box-tree mode (File.Children as they are, with the
+	// sidx UpdateSidx inserted): comparable when the top level holds nothing but
+	// what segment mode writes too, so that both outputs have the same layout
+	for _, ch := range f.Children {
+		switch ch.Type() {
+		case "ftyp", "moov", "styp", "sidx", "emsg", "moof", "mdat", "mfra":
+		default:
+			e.c.Count("oracle3_boxtree_not_comparable", 1)
+			return
+		}
+	}
+	// a sidx after the first moof that no styp introduces is attached by the decoder to the
+	// segment already running (segment mode then writes it before that segment's first
+	// fragment): the box order of the two modes differs there by construction
+	if ns, werr := boxwalk.Walk(e.b.Bytes); werr == nil {
+		seenMoof, styp := false, false
+		for _, n := range ns {
+			switch n.Type {
+			case "moof":
+				seenMoof = true
+			case "mdat":
+				styp = false
+			case "styp":
+				styp = true
+			case "sidx":
+				if seenMoof && !styp {
+					e.c.Count("oracle3_boxtree_not_comparable", 1)
+					return
+				}
+			}
+		}
+	}
+	f.FragEncMode = mp4.EncModeBoxTree
+	outBT, err, pi := encodeFile(e.c, f, false, len(e.b.Bytes))
+	f.FragEncMode = mp4.EncModeSegment
+	if pi != nil {
+		e.c.Violation(runner.PanicKey("updatesidx-boxtree-encode", pi), "box-tree Encode after UpdateSidx panics: "+pi.Value,
+			detail{History: e.h, Flags: uint32(e.flags), Reader: e.reader, What: pi.Stack})
+		return
+	}
+	if err != nil {
+		e.c.Count("oracle3_boxtree_encode_failed", 1)
+		return
+	}
+	if bytes.Equal(outBT, out) {
+		e.c.Count("oracle3_boxtree_equals_segment_mode", 1)
+		return
+	}
+	e.checkIndex("UpdateSidx-boxtree", outBT, f, part, had, add, nz)
 }
 
 func short(s string) string {
